@@ -90,11 +90,11 @@ fn secret(rng: &mut Rng) -> SecretKey {
 }
 
 pub fn amount(rng: &mut Rng, flags: u64) -> u64 {
-    match rng.below(10) {
+    match rng.below(12) {
         0 => 1,
         1 => 7,
-        2..=5 => rng.range(1_000, 5_000),
-        6..=8 => rng.range(100_000, 2_000_000),
+        2..=3 => rng.range(1_000, 5_000),
+        4..=10 => rng.range(1_000_000, 9_000_000),
         _ => {
             if flags & F_HUGEFEE != 0 {
                 u64::MAX - rng.below(3)
@@ -204,6 +204,32 @@ impl World {
         }
     }
 
+    /// Re-reads the spendable coins and messages from the database (coins that disappeared
+    /// stay known as `used`, for double-spend attempts).
+    pub fn resync(&mut self) {
+        use fuel_core_storage::iter::IteratorOverTable;
+        let db = self.db.clone();
+        let mut fresh: Vec<KnownCoin> = vec![];
+        for r in db.iter_all::<Coins>(None) {
+            let (utxo, c) = r.unwrap();
+            if let Some(w) = self.wallets.iter().position(|x| &x.1 == c.owner()) {
+                fresh.push(KnownCoin { utxo, wallet: w, amount: *c.amount(), asset: *c.asset_id(), used: false });
+            }
+        }
+        for old in self.coins.iter() {
+            if !fresh.iter().any(|f| f.utxo == old.utxo) && fresh.len() < 40 {
+                let mut o = old.clone();
+                o.used = true;
+                fresh.push(o);
+            }
+        }
+        self.coins = fresh;
+        let live: Vec<_> = db.iter_all::<Messages>(None).map(|r| *r.unwrap().1.nonce()).collect();
+        for m in self.msgs.iter_mut() {
+            m.used = !live.contains(m.msg.nonce());
+        }
+    }
+
     /// Insert a coin whose utxo id collides with output `idx` of `tx` (class E1).
     pub fn plant_collision(&mut self, rng: &mut Rng, tx: &Transaction, idx: u16) {
         let id = tx.id(&self.params.chain_id());
@@ -276,11 +302,12 @@ impl World {
         };
         let mut b = TransactionBuilder::script(script, data);
         b.with_params(self.params.clone());
-        b.script_gas_limit(*rng.pick(&[0u64, 10_000, 100_000, 100_000, 400_000]));
-        if rng.chance(1, 12) {
+        let gas_limit = *rng.pick(&[0u64, 10_000, 100_000, 100_000, 400_000]);
+        b.script_gas_limit(gas_limit);
+        if rng.chance(1, 25) {
             b.expiration(BlockHeight::new(rng.below(4) as u32));
         }
-        if rng.chance(1, 14) {
+        if rng.chance(1, 30) {
             b.maturity(BlockHeight::new(rng.range(1, 4) as u32));
         }
         // inputs
@@ -363,10 +390,13 @@ impl World {
             (base_in.min(u64::MAX as u128) as u64) - rng.below(1000)
         } else {
             let cap = base_in.min(u64::MAX as u128) as u64;
-            let want = match rng.below(6) {
+            let factor = self.params.fee_params().gas_price_factor().max(1);
+            let need = ((gas_limit as u128 + 40_000) * gas_price_hint as u128 / factor as u128 + 10)
+                .min(u64::MAX as u128) as u64;
+            let want = match rng.below(12) {
                 0 => 0,
                 1 => rng.range(1, 2_000),
-                _ => 600_000u64.saturating_mul(gas_price_hint.max(1)),
+                _ => need,
             };
             want.min(cap)
         };
